@@ -220,14 +220,17 @@ class _JaxtypingLoader(SourceFileLoader):
             compile, tree, path, "exec", dont_inherit=True, optimize=_optimize
         )
 
-    def exec_module(self, module):
+    def get_code(self, fullname):
         # Use a custom optimization marker - the import lock should make this monkey
-        # patch safe
+        # patch safe.
+        # Only whilst locating/writing the bytecode of *this* module: patching for the
+        # whole of `exec_module` would also rename the cached bytecode of every module
+        # imported whilst this one is executing, whether or not it is instrumented.
         with patch(
             "importlib._bootstrap_external.cache_from_source",
             ft.partial(_optimized_cache_from_source, self._typechecker.get_hash()),
         ):
-            return super().exec_module(module)
+            return super().get_code(fullname)
 
 
 class _JaxtypingFinder(MetaPathFinder):
